@@ -417,7 +417,7 @@ def run_c04(ctx) -> Corr:
                 "operation with the abstract registry specification fed the received lines only; oracle = the registry the property "
                 "describes, maintained independently. non-trivial = distinct (state, line) that changes the registry or fails "
                 "with a missing-node/child error")
-    hists = [h for _, h in corpus_histories("C04")] + histories(ctx, "c04h", 300, 5000, send_ratio=0.05, fault_ratio=0.05)
+    hists = [h for _, h in corpus_histories("C04")] + histories(ctx, "c04h", 300, 5000, send_ratio=0.05, fault_ratio=0.08, cancel_ratio=0.4)
     if ctx.tier == "thorough":
         hists += _exhaustive_histories(3)
     impl = run_both(hists, corr, ctx, "registry", "registry view")
@@ -446,7 +446,7 @@ def run_c04(ctx) -> Corr:
                     corr.violate("the yielded message does not carry the decoded field values", {**case, "want": want})
                     break
             if err is not None and err.startswith("err missing"):
-                if o["out"] != err and not o["out"].startswith("err transportFailed"):
+                if o["out"] != err and o["out"] != abort_outcome(op[2], o["writes"]):
                     corr.violate("a message for an unknown node/child did not fail with the error naming it", {**case, "want": err})
                     break
                 new = ref
@@ -682,7 +682,7 @@ def run_c06(ctx) -> Corr:
                 "that produces at least one write")
     hists = [h for _, h in corpus_histories("C06")] + histories(ctx, "c06h", 300, 5000, send_ratio=0.15, fault_ratio=0.0)
     # failing writes: only the comparison with the Lean specification (expectedAttempts) looks at these steps
-    hists += histories(ctx, "c06f", 60, 1000, send_ratio=0.3, fault_ratio=0.3)
+    hists += histories(ctx, "c06f", 60, 1000, send_ratio=0.3, fault_ratio=0.3, cancel_ratio=0.35)
     # time zones: the handler uses time.localtime(); the harness substitutes broken-down local times directly
     rng = lib.rng_for(ctx.seed, "c06t")
     for v in lib.VERSIONS:
@@ -1202,7 +1202,7 @@ def run_c12(ctx) -> Corr:
                         if cmd == 1 and int(t) in (0, 2):
                             # a second held message for node 2 and a wake whose second write fails, then a clean wake
                             h.ops.append(("send", (2, 1, 1, 0, int(t) + 1, "6"), True, ()))
-                            h.ops.append(("recv", f"2;255;3;0;{wake_t};5", (False, True), gw.DEFAULT_TIME))
+                            h.ops.append(("recv", f"2;255;3;0;{wake_t};5", (False, gw.CANCEL if int(t) == 2 else True), gw.DEFAULT_TIME))
                         wakes = [("recv", f"{n};255;3;0;{wake_t};5", (), gw.DEFAULT_TIME) for n in (1, 2)]
                         if cmd == 1 and buffer and not fault:
                             # the same, with the gateway context left and entered again (a reconnect) before the wakes
@@ -1249,7 +1249,7 @@ def run_c12(ctx) -> Corr:
                 f = fields_of(op[1])
                 if f is not None and is_wake(before["proto"], f):
                     got = [w[0] for w in o["writes"] if w[1]]
-                    failed = o["out"].startswith("err transportFailed")
+                    failed = o["out"] in ("err transportFailed", "foreign CancelledError") and any(not w[1] for w in o["writes"])
                     for key in [k for k in pending if k[0] == f[0]]:
                         if pending[key] in got:
                             del pending[key]
@@ -1316,7 +1316,7 @@ def older_types_history(rng, v_old: str, cross: bool, avoid_hb: bool, length: in
             continue
         if cross and n not in known_nodes:
             continue
-        h.ops.append(("recv", line, (rng.random() < 0.5,) if rng.random() < 0.05 else (), gw.DEFAULT_TIME))
+        h.ops.append(("recv", line, (rng.choice((False, True, gw.CANCEL)),) if rng.random() < 0.08 else (), gw.DEFAULT_TIME))
     return h
 
 
